@@ -250,6 +250,12 @@ impl<'tcx> Cx<'tcx> {
         }
         // scalar ints
         let tenv = TypingEnv::post_analysis(self.tcx, owner);
+        if let Const::Val(mir::ConstValue::Scalar(rustc_middle::mir::interpret::Scalar::Ptr(ptr, _)), _) = c.const_ {
+            let aid = ptr.provenance.alloc_id();
+            if let Some(rustc_middle::mir::interpret::GlobalAlloc::Static(sdid)) = self.tcx.try_get_global_alloc(aid) {
+                fields.push(("static", s(self.path(sdid))));
+            }
+        }
         match c.const_ {
             Const::Val(..) | Const::Ty(..) => {
                 if ty.is_integral() || ty.is_bool() || ty.is_char() {
